@@ -882,10 +882,10 @@ impl Exec {
     async fn apply(&mut self, a: &Act) -> Result<(), String> {
         // The counters evaluate their expirations lazily, from the clock, whenever a handler asks —
         // also inside the handling of a PDU. The twin runs 1-2 ms behind the real transaction (and
-        // every step costs a millisecond), so a PDU handed over within a few ms of a timer's due
+        // every step costs a millisecond), so a PDU (or a user request) handed over within a few ms of a timer's due
         // time may find that timer expired on one side and not yet on the other: the comparison is
         // ambiguous and the schedule is pruned, not judged.
-        if matches!(a, Act::Deliver(_) | Act::Dup(_) | Act::Burst | Act::Stray(_, _)) {
+        if matches!(a, Act::Deliver(_) | Act::Dup(_) | Act::Burst | Act::Stray(_, _) | Act::User(_)) {
             for t in &self.twins {
                 for side in [Side::S, Side::R] {
                     if let Some(u) = t.world.until(side) {
@@ -994,12 +994,21 @@ impl Exec {
                     self.delayed = true;
                 }
                 let mut min: Option<Duration> = None;
+                let mut dues: Vec<Duration> = vec![];
                 for t in &self.twins {
                     for side in [Side::S, Side::R] {
                         if let Some(u) = t.world.until(side) {
                             min = Some(min.map_or(u, |m| m.min(u)));
+                            dues.push(u);
                         }
                     }
+                }
+                // two timers of different transactions or sides due within the twin's lag of each
+                // other: which of them the real loops service first (and what each then sees of the
+                // other's effects) is not determined at this resolution
+                dues.sort();
+                if dues.len() >= 2 && dues[1] - dues[0] < Duration::from_millis(25) {
+                    return Err("AMBIGUOUS-TIMERS (two timers due within the twin's lag of each other)".into());
                 }
                 let d = match min {
                     Some(m) => {
@@ -1357,7 +1366,9 @@ pub fn run_schedule(scn: &DScn, prefix: &[usize]) -> RunResult {
             for (k, t) in ex.twins.iter().enumerate() {
                 let real = std::fs::read(ex.d[t.spec.to].root.join(format!("dst{}.bin", k))).ok();
                 let twin = std::fs::read(ex.dir.join(format!("twin{}", k)).join("r").join(format!("dst{}.bin", k))).ok();
-                if real != twin {
+                // (a receiver started afresh by late duplicates may deliver the file on its own:
+                // the twin has no such second receiver)
+                if real != twin && !ex.ghost.contains_key(&t.id) {
                     divergence = Some(format!("destination file of transaction {} differs between the real daemon ({:?}) and its twin ({:?})", k, real.map(|b| hex(&b)), twin.map(|b| hex(&b))));
                 }
                 for side in [Side::S, Side::R] {
